@@ -16,7 +16,7 @@ from ..ctx import CTX, InjectedFault, RunTooBig
 from ..history import History, canon, canon_outcome, digest, same
 from ..rng import Streams, chance, pick, weighted
 from ..sim import apply_op, build_sim, locations, preload, readable, stack_state, watch_calls, watch_spirals
-from ..world import gen_inputs, gen_request, gen_situation, gen_world
+from ..world import gen_inputs, gen_request, gen_situation, gen_world, wide_knob
 from . import Result
 from .c17 import trace_nodes_match
 
@@ -87,6 +87,7 @@ def generate(seed: int, tier: str) -> dict:
         discipline=profile,
         n_vars=wr.randint(3, 8 if tier == "quick" else 12),
         max_depth=2,
+        wide=wide_knob(wr, tier, 0.12),
     )
     ir = st["inputs"]
     situation = gen_situation(ir, world, max_persons=4)
